@@ -435,3 +435,49 @@ def run(modname, tier, seed, replay=None):
         pid, tier, seed, stats.evaluations, len(stats.nontrivial), time.time() - t0,
         'VIOLATION' if rc else 'held'))
     return rc
+
+
+def atheris_stage(pid, tier, seed, runs, seeds=None, max_len=420):
+    """Run fuzz/target.py as a subprocess (libFuzzer, -runs bounded). Returns a coverage dict and
+    possibly {'fail': case}.  Skipped (and said so) when atheris cannot be imported."""
+    import shutil
+    import subprocess
+    import tempfile
+    work = tempfile.mkdtemp(prefix='verif_fuzz_')
+    out = {'atheris': {'runs_requested': runs}}
+    try:
+        probe = subprocess.run([sys.executable, '-c', 'import sys; sys.path.append(%r); import atheris' % os.path.join(VERIF, '.deps')],
+                               capture_output=True, text=True)
+        if probe.returncode != 0:
+            out['atheris'] = {'skipped': 'atheris not importable: ' + probe.stderr.strip()[-200:]}
+            return out
+        total_execs = 0
+        for variant in ('seeded', 'empty'):
+            corpus = os.path.join(work, 'corpus_' + variant)
+            os.makedirs(corpus)
+            if variant == 'seeded':
+                for i, s in enumerate(seeds or []):
+                    with open(os.path.join(corpus, 'seed%03d' % i), 'wb') as fh:
+                        fh.write(s)
+            artifact = os.path.join(work, 'fail_%s.json' % variant)
+            cmd = [sys.executable, os.path.join(VERIF, 'fuzz', 'target.py'), pid, artifact, corpus,
+                   '-runs=%d' % runs, '-seed=%d' % (seed or 1), '-max_len=%d' % max_len, '-artifact_prefix=%s/' % work,
+                   '-print_final_stats=1', '-verbosity=0']
+            env = dict(os.environ)
+            r = subprocess.run(cmd, capture_output=True, text=True, env=env, timeout=3600)
+            execs = 0
+            for line in (r.stderr + r.stdout).splitlines():
+                if 'stat::number_of_executed_units' in line:
+                    execs = int(line.split(':')[-1])
+            total_execs += execs
+            out['atheris'][variant] = {'executions': execs, 'corpus_files': len(os.listdir(corpus)), 'exit': r.returncode}
+            if os.path.exists(artifact):
+                with open(artifact) as fh:
+                    out['fail'] = json.load(fh)['case']
+                break
+            if r.returncode != 0:
+                out['atheris'][variant]['note'] = 'libFuzzer exited %d without an oracle artifact: %s' % (r.returncode, (r.stderr or '')[-300:])
+        out['atheris']['executions'] = total_execs
+        return out
+    finally:
+        shutil.rmtree(work, ignore_errors=True)
